@@ -116,10 +116,11 @@ func (noClusters) Provide(dns string) (blobclient.ClusterClient, error) {
 }
 
 type cBlob struct {
-	Kind    string `json:"kind"` // public-upload | duplicate-upload-delayed | transfer
-	Size    int    `json:"size"`
-	Digest  string `json:"digest"`
-	content []byte
+	Kind       string   `json:"kind"` // public-upload | public-upload-two-namespaces | duplicate-upload-delayed | transfer
+	Size       int      `json:"size"`
+	Digest     string   `json:"digest"`
+	Namespaces []string `json:"namespaces,omitempty"` // namespaces the blob is owed to (one write-back task each)
+	content    []byte
 }
 
 type cCfg struct {
@@ -129,30 +130,59 @@ type cCfg struct {
 	FailIdx  []int   `json:"second_pass_failing_blobs,omitempty"`
 }
 
-var cScenarios = []string{"failing-then-healthy", "failing-then-partially-healthy", "healthy-from-start", "failing-twice"}
+// health[phase] = {backend A failing, backend B failing}; phases: populate,
+// first forced cleanup, second forced cleanup.
+type cScript struct {
+	name   string
+	health [3][2]bool
+}
 
-const cNamespace = "c10-namespace"
+var cScenarios = []cScript{
+	{"failing-then-healthy", [3][2]bool{{true, true}, {true, true}, {false, false}}},
+	{"two-ns-first-backend-fails", [3][2]bool{{true, true}, {true, false}, {false, false}}},
+	{"failing-then-partially-healthy", [3][2]bool{{true, true}, {true, true}, {false, false}}},
+	{"two-ns-second-backend-fails", [3][2]bool{{true, true}, {false, true}, {false, false}}},
+	{"healthy-from-start", [3][2]bool{{false, false}, {false, false}, {false, false}}},
+	{"failing-twice", [3][2]bool{{true, true}, {true, true}, {true, true}}},
+}
+
+var cNamespaces = [2]string{"c10-ns-a", "c10-ns-b"}
 
 func partC(t *testing.T, run *ev.Run, baseDir string, i int) {
 	caseID := fmt.Sprintf("c%d", i)
 	r := run.Rand(caseID)
-	cfg := cCfg{Index: i, Scenario: cScenarios[i%len(cScenarios)]}
+	script := cScenarios[i%len(cScenarios)]
+	cfg := cCfg{Index: i, Scenario: script.name}
 	nb := 3 + r.Intn(4)
 	for k := 0; k < nb; k++ {
 		b := cBlob{Size: 1 + r.Intn(6000)}
 		switch x := r.Intn(10); {
-		case x < 4:
+		case x < 3:
 			b.Kind = "public-upload"
+		case x < 5:
+			b.Kind = "public-upload-two-namespaces"
 		case x < 7:
 			b.Kind = "duplicate-upload-delayed"
 		default:
 			b.Kind = "transfer"
 		}
-		if k == 0 {
+		switch k {
+		case 0:
+			b.Kind = "public-upload-two-namespaces"
+		case 1:
+			b.Kind = "transfer"
+		case 2:
 			b.Kind = "public-upload"
 		}
-		if k == 1 {
-			b.Kind = "transfer"
+		switch b.Kind {
+		case "public-upload", "duplicate-upload-delayed":
+			b.Namespaces = []string{cNamespaces[0]}
+		case "public-upload-two-namespaces":
+			// the same layer pushed under two namespaces, in either order
+			b.Namespaces = []string{cNamespaces[0], cNamespaces[1]}
+			if r.Intn(2) == 0 {
+				b.Namespaces = []string{cNamespaces[1], cNamespaces[0]}
+			}
 		}
 		b.content = gen.Bytes(r, b.Size)
 		b.Digest = gen.SHA256Hex(b.content)
@@ -192,12 +222,28 @@ func partC(t *testing.T, run *ev.Run, baseDir string, i int) {
 		fatal("localdb", err)
 	}
 	defer db.Close()
-	be := &scriptedBackend{blobs: map[string][]byte{}, failName: map[string]bool{}}
-	be.failAll = cfg.Scenario != "healthy-from-start"
+	// one scripted backend per namespace
+	bes := map[string]*scriptedBackend{}
 	backends := backend.ManagerFixture()
-	if err := backends.Register(cNamespace, be, false); err != nil {
-		fatal("register backend", err)
+	for _, ns := range cNamespaces {
+		bes[ns] = &scriptedBackend{blobs: map[string][]byte{}, failName: map[string]bool{}}
+		if err := backends.Register("^"+ns+"$", bes[ns], false); err != nil {
+			fatal("register backend", err)
+		}
 	}
+	setHealth := func(phase int) {
+		for k, ns := range cNamespaces {
+			bes[ns].mu.Lock()
+			bes[ns].failAll = script.health[phase][k]
+			bes[ns].mu.Unlock()
+		}
+	}
+	failingNow := func(ns string) bool {
+		bes[ns].mu.Lock()
+		defer bes[ns].mu.Unlock()
+		return bes[ns].failAll
+	}
+	setHealth(0)
 	wbm, err := persistedretry.NewManager(persistedretry.Config{
 		IncomingBuffer: 100, RetryBuffer: 100, NumIncomingWorkers: 1, NumRetryWorkers: 1,
 		MaxTaskThroughput: time.Millisecond,
@@ -246,10 +292,16 @@ func partC(t *testing.T, run *ev.Run, baseDir string, i int) {
 			fatal("digest", err)
 		}
 		switch b.Kind {
-		case "public-upload":
-			err = cl.UploadBlob(context.Background(), cNamespace, d, bytes.NewReader(b.content), uint64(b.Size))
+		case "public-upload", "public-upload-two-namespaces":
+			// the second namespace goes through the upload-conflict path,
+			// which adds a second write-back task for the same digest
+			for _, ns := range b.Namespaces {
+				if err = cl.UploadBlob(context.Background(), ns, d, bytes.NewReader(b.content), uint64(b.Size)); err != nil {
+					break
+				}
+			}
 		case "duplicate-upload-delayed":
-			err = cl.DuplicateUploadBlob(cNamespace, d, bytes.NewReader(b.content), uint64(b.Size), time.Hour)
+			err = cl.DuplicateUploadBlob(b.Namespaces[0], d, bytes.NewReader(b.content), uint64(b.Size), time.Hour)
 		case "transfer":
 			err = cl.TransferBlob(d, bytes.NewReader(b.content), uint64(b.Size))
 		}
@@ -258,24 +310,38 @@ func partC(t *testing.T, run *ev.Run, baseDir string, i int) {
 		}
 	}
 	// wait until the asynchronous write-back attempts of the public uploads
-	// have finished (failed -> task marked failed; healthy -> persist cleared)
+	// have finished (failing backend -> task marked failed; healthy -> uploaded
+	// and persist flag cleared)
 	deadline := time.Now().Add(180 * time.Second)
 	for _, b := range cfg.Blobs {
-		if b.Kind != "public-upload" {
+		if b.Kind != "public-upload" && b.Kind != "public-upload-two-namespaces" {
 			continue
 		}
 		for {
-			settled := false
-			if be.failAll {
-				tasks, err := wbm.Find(writeback.NewNameQuery(b.Digest))
-				if err != nil {
-					fatal("find tasks", err)
+			tasks, err := wbm.Find(writeback.NewNameQuery(b.Digest))
+			if err != nil {
+				fatal("find tasks", err)
+			}
+			settled := true
+			for _, ns := range b.Namespaces {
+				if failingNow(ns) {
+					found := false
+					for _, tk := range tasks {
+						if wt, ok := tk.(*writeback.Task); ok && wt.Namespace == ns && wt.Failures > 0 {
+							found = true
+						}
+					}
+					settled = settled && found
+				} else {
+					_, has := bes[ns].get(b.Digest)
+					pending := false
+					for _, tk := range tasks {
+						if wt, ok := tk.(*writeback.Task); ok && wt.Namespace == ns {
+							pending = true
+						}
+					}
+					settled = settled && has && !pending
 				}
-				settled = len(tasks) > 0 && tasks[0].GetFailures() > 0
-			} else {
-				var pm metadata.Persist
-				err := cas.GetCacheFileMetadata(b.Digest, &pm)
-				settled = os.IsNotExist(err)
 			}
 			if settled {
 				break
@@ -314,14 +380,32 @@ func partC(t *testing.T, run *ev.Run, baseDir string, i int) {
 		err = json.NewDecoder(resp.Body).Decode(&out)
 		return out, err
 	}
-	wasPersisted := map[string]bool{}
-	for _, b := range cfg.Blobs {
-		wasPersisted[b.Digest] = persistedNow(b.Digest)
+	pendingTasks := func(name string) []string {
+		var out []string
+		tasks, _ := wbm.Find(writeback.NewNameQuery(name))
+		for _, tk := range tasks {
+			if wt, ok := tk.(*writeback.Task); ok {
+				out = append(out, wt.Namespace)
+			}
+		}
+		return out
 	}
-	w["persisted_before_first_pass"] = wasPersisted
+	wasPersisted := map[string]bool{}
+	wasCached := map[string]bool{}
+	markState := func(key string) {
+		st := map[string]interface{}{}
+		for _, b := range cfg.Blobs {
+			wasPersisted[b.Digest] = persistedNow(b.Digest)
+			wasCached[b.Digest], _ = inCache(b)
+			st[b.Digest] = map[string]interface{}{"persist_flag": wasPersisted[b.Digest], "pending_writeback_tasks": pendingTasks(b.Digest)}
+		}
+		w[key] = st
+	}
 
-	// check: a blob that was awaiting write-back before a pass is, after the
-	// pass, either still cached with its bytes or held by the backend
+	// check: a blob that carried the awaiting-write-back mark before a pass
+	// is, after the pass, either still cached with its bytes or held, with
+	// identical bytes, by the backend of EVERY namespace it is owed to
+	multiPending := 0
 	check := func(pass string) (survived, deletedAfterWriteback int, ok bool) {
 		for _, b := range cfg.Blobs {
 			present, same := inCache(b)
@@ -330,23 +414,48 @@ func partC(t *testing.T, run *ev.Run, baseDir string, i int) {
 				return 0, 0, false
 			}
 			if !wasPersisted[b.Digest] {
+				if !present && wasCached[b.Digest] {
+					// deleted in this pass without the mark: if a backend it
+					// is owed to still lacks it, the mark had been cleared by an
+					// earlier, partially successful write-back. Outside the
+					// statement (which speaks about marked files): counted only.
+					for _, ns := range b.Namespaces {
+						if _, has := bes[ns].get(b.Digest); !has {
+							run.Count("c_unmarked_blob_deleted_with_writeback_still_pending", 1)
+							break
+						}
+					}
+				}
 				continue
 			}
 			if present {
 				survived++
 				continue
 			}
-			remote, has := be.get(b.Digest)
-			if !has || !bytes.Equal(remote, b.content) {
-				viol("blob-awaiting-writeback-deleted-without-backup/"+pass, map[string]interface{}{
-					"blob": b, "backend_has_it": has, "backend_failing": be.failAll})
-				return 0, 0, false
+			for _, ns := range b.Namespaces {
+				remote, has := bes[ns].get(b.Digest)
+				if !has || !bytes.Equal(remote, b.content) {
+					sig := "blob-awaiting-writeback-deleted-without-backup/"
+					if len(b.Namespaces) > 1 {
+						sig = "blob-awaiting-writeback-for-several-namespaces-deleted-without-backup-in-one/"
+					}
+					viol(sig+pass, map[string]interface{}{
+						"blob": b, "namespace_without_backup": ns, "backend_has_it": has, "backend_failing": failingNow(ns)})
+					return 0, 0, false
+				}
 			}
 			deletedAfterWriteback++
 		}
 		return survived, deletedAfterWriteback, true
 	}
 
+	markState("state_before_first_pass")
+	for _, b := range cfg.Blobs {
+		if wasPersisted[b.Digest] && len(pendingTasks(b.Digest)) > 1 {
+			multiPending++
+		}
+	}
+	setHealth(1)
 	resp1, err := forceCleanup()
 	if err != nil {
 		fatal("forcecleanup 1", err)
@@ -356,23 +465,30 @@ func partC(t *testing.T, run *ev.Run, baseDir string, i int) {
 	if !ok {
 		return
 	}
-	if be.failAll && d1 > 0 {
-		// cannot happen without a violation above (backend never accepted anything)
-		panic("harness: deletedAfterWriteback with failing backend")
+	// a mark cleared although a write-back is still pending (outside the
+	// statement, which speaks about marked files): counted only
+	for _, b := range cfg.Blobs {
+		if wasPersisted[b.Digest] && !persistedNow(b.Digest) && len(pendingTasks(b.Digest)) > 0 {
+			if present, _ := inCache(b); present {
+				for _, ns := range b.Namespaces {
+					if _, has := bes[ns].get(b.Digest); !has {
+						run.Count("c_mark_cleared_while_writeback_pending_for_other_namespace", 1)
+						break
+					}
+				}
+			}
+		}
 	}
 	// second pass
-	for _, b := range cfg.Blobs {
-		wasPersisted[b.Digest] = persistedNow(b.Digest)
-	}
-	w["persisted_before_second_pass"] = wasPersisted
-	be.mu.Lock()
-	if cfg.Scenario != "failing-twice" {
-		be.failAll = false
-	}
+	markState("state_before_second_pass")
+	setHealth(2)
 	for _, k := range cfg.FailIdx {
-		be.failName[cfg.Blobs[k].Digest] = true
+		for _, ns := range cNamespaces {
+			bes[ns].mu.Lock()
+			bes[ns].failName[cfg.Blobs[k].Digest] = true
+			bes[ns].mu.Unlock()
+		}
 	}
-	be.mu.Unlock()
 	resp2, err := forceCleanup()
 	if err != nil {
 		fatal("forcecleanup 2", err)
@@ -382,13 +498,6 @@ func partC(t *testing.T, run *ev.Run, baseDir string, i int) {
 	if !ok {
 		return
 	}
-	// blobs whose write-back still fails must have survived
-	for _, k := range cfg.FailIdx {
-		if present, _ := inCache(cfg.Blobs[k]); !present && wasPersisted[cfg.Blobs[k].Digest] {
-			viol("blob-awaiting-writeback-deleted-without-backup/second-pass-"+cfg.Scenario, map[string]interface{}{"blob": cfg.Blobs[k]})
-			return
-		}
-	}
 	unp := 0
 	for _, b := range cfg.Blobs {
 		if b.Kind == "transfer" {
@@ -397,17 +506,22 @@ func partC(t *testing.T, run *ev.Run, baseDir string, i int) {
 			}
 		}
 	}
-	run.Case("c|"+ev.JSON(cfg), (s1 >= 1 || cfg.Scenario == "healthy-from-start") && d1+d2 >= 1 || (cfg.Scenario == "failing-twice" && s2 >= 1))
+	nontrivial := (s1 >= 1 && d1+d2 >= 1) || (cfg.Scenario == "healthy-from-start" && d1+d2 >= 1) || (cfg.Scenario == "failing-twice" && s2 >= 1)
+	run.Case("c|"+ev.JSON(cfg), nontrivial)
 	run.Count("c_scenarios", 1)
+	run.Count("c_scenario_"+cfg.Scenario, 1)
 	run.Count("c_blobs", int64(len(cfg.Blobs)))
-	run.Count("c_persisted_blobs_survived_failing_backend", int64(s1))
+	run.Count("c_blobs_with_several_pending_writebacks", int64(multiPending))
+	run.Count("c_persisted_blobs_survived_first_pass", int64(s1))
 	run.Count("c_persisted_blobs_survived_second_pass", int64(s2))
 	run.Count("c_persisted_blobs_deleted_after_writeback", int64(d1+d2))
 	run.Count("c_unpersisted_blobs_cleaned", int64(unp))
-	be.mu.Lock()
-	run.Count("c_backend_uploads", int64(be.uploads))
-	run.Count("c_backend_uploads_refused", int64(be.refused))
-	be.mu.Unlock()
+	for _, ns := range cNamespaces {
+		bes[ns].mu.Lock()
+		run.Count("c_backend_uploads", int64(bes[ns].uploads))
+		run.Count("c_backend_uploads_refused", int64(bes[ns].refused))
+		bes[ns].mu.Unlock()
+	}
 	if run.WantSample() && i%5 == 0 {
 		run.Sample(map[string]interface{}{"part": "c", "config": cfg, "first_pass": resp1, "second_pass": resp2})
 	}
